@@ -151,7 +151,8 @@ impl Char for u8 {
     }
 
     fn is_whitespace(&self) -> bool {
-        self.is_ascii_whitespace()
+        // Unlike `u8::is_ascii_whitespace`, `char::is_whitespace` treats vertical tab as whitespace
+        self.is_ascii() && (*self as char).is_whitespace()
     }
 
     fn is_newline(&self) -> bool {
